@@ -7,6 +7,7 @@
 #include <map>
 #include <memory>
 #include <string>
+#include <functional>
 #include <vector>
 
 using namespace vpbt;
@@ -491,6 +492,146 @@ void t_timer_manager_u32(Src &s, Case &c)
     g_utims = nullptr;
 }
 
+// The manager with other signed time bases: an explicitly narrower difference type (timer_spec<int64_t,int32_t>: 64-bit
+// milliseconds, 32-bit intervals) and an all-32-bit spec. Clock values on both sides of 2^31 for the 64-bit clock. Starts
+// lie around the current time, intervals are small, callbacks only record.
+struct SFire
+{
+    int id;
+    int64_t deadline;
+};
+static std::vector<SFire> g_sfired;
+static std::function<int64_t(int)> g_sfinish;
+static void sfire(int id) { g_sfired.push_back(SFire{id, g_sfinish(id)}); }
+template <class Spec> static void spec_history(Src &s, Case &c, const char *what, std::initializer_list<int64_t> bases)
+{
+    typedef typename Spec::time_t T;
+    typedef typename Spec::difftime_t D;
+    typedef igris::timer_basic<Spec, int> Tim;
+    int n = (int)s.range(1, 4);
+    auto *mgr = new igris::timer_manager_basic<Spec>; // leaked on failure
+    auto *tims = new std::vector<Tim *>;
+    g_sfinish = [tims](int id) { return (int64_t)(*tims)[(size_t)id]->finish(); };
+    struct R
+    {
+        bool planned = false;
+        int64_t start = 0, interval = 1;
+    };
+    std::vector<R> ref((size_t)n);
+    for (int i = 0; i < n; i++)
+        tims->push_back(new Tim(igris::make_delegate(sfire), (int)i));
+    int64_t now = s.pick<int64_t>(bases);
+    int nops = (int)s.range(1, 30);
+    c.log("%s, %d timers, t0=%lld: ", what, n, (long long)now);
+    bool fired_any = false;
+    for (int k = 0; k < nops; k++)
+    {
+        int id = (int)s.below((uint64_t)n);
+        switch (s.weighted({4, 2, 4, 1}))
+        {
+        case 0:
+        {
+            int64_t interval = (int64_t)s.pick({1, 2, 5, 10, 50});
+            int64_t start = now + (int64_t)s.pick({0, 0, -1, -5, -9, -30, 3, 20});
+            c.log("plan(t%d,%lld,%lld) ", id, (long long)start, (long long)interval);
+            mgr->plan(*(*tims)[(size_t)id], (T)start, (D)interval);
+            ref[(size_t)id] = R{true, start, interval};
+            break;
+        }
+        case 1:
+            c.log("unplan(t%d) ", id);
+            (*tims)[(size_t)id]->unplan();
+            ref[(size_t)id].planned = false;
+            break;
+        case 3:
+        {
+            // the two-step form: set_start / set_interval, then plan(tim)
+            int64_t interval = (int64_t)s.pick({1, 3, 10, 40});
+            int64_t start = now + (int64_t)s.pick({0, -2, -12, 7});
+            c.log("set_start(t%d,%lld) set_interval(%lld) plan ", id, (long long)start, (long long)interval);
+            (*tims)[(size_t)id]->set_start((T)start);
+            (*tims)[(size_t)id]->set_interval((D)interval);
+            mgr->plan(*(*tims)[(size_t)id]);
+            ref[(size_t)id] = R{true, start, interval};
+            break;
+        }
+        default:
+        {
+            now += (int64_t)s.pick({0, 1, 4, 10, 25, 120});
+            c.log("exec(%lld) ", (long long)now);
+            g_sfired.clear();
+            mgr->exec((T)now);
+            std::vector<SFire> want;
+            for (;;)
+            {
+                int best = -1;
+                for (int i = 0; i < n; i++)
+                    if (ref[(size_t)i].planned && now - ref[(size_t)i].start >= ref[(size_t)i].interval)
+                        if (best < 0 || ref[(size_t)i].start + ref[(size_t)i].interval < ref[(size_t)best].start + ref[(size_t)best].interval)
+                            best = i;
+                if (best < 0)
+                    break;
+                want.push_back(SFire{best, ref[(size_t)best].start + ref[(size_t)best].interval});
+                ref[(size_t)best].start += ref[(size_t)best].interval;
+                if (want.size() > 100000)
+                    break;
+            }
+            auto key = [](const SFire &f) { return std::make_pair(f.id, f.deadline); };
+            std::vector<std::pair<int, int64_t>> a, b;
+            for (auto &f : g_sfired)
+                a.push_back(key(f));
+            for (auto &f : want)
+                b.push_back(key(f));
+            std::sort(a.begin(), a.end());
+            std::sort(b.begin(), b.end());
+            VP_CHECK(a == b, "spec_timer_firings", "%s: exec(%lld) fired %zu callbacks, the reference scheduler %zu (a due timer was skipped, or one fired early or twice)",
+                     what, (long long)now, g_sfired.size(), want.size());
+            for (size_t i = 1; i < g_sfired.size(); i++)
+                VP_CHECK(g_sfired[i].deadline >= g_sfired[i - 1].deadline, "spec_timer_order", "%s: exec(%lld): deadline %lld served after deadline %lld", what,
+                         (long long)now, (long long)g_sfired[i].deadline, (long long)g_sfired[i - 1].deadline);
+            if (g_sfired.size() >= 2)
+                fired_any = true;
+            break;
+        }
+        }
+        for (int i = 0; i < n; i++)
+        {
+            Tim *t = (*tims)[(size_t)i];
+            VP_CHECK(t->is_planned() == ref[(size_t)i].planned, "spec_timer_planned", "%s: t%d is_planned()=%d, reference %d", what, i, (int)t->is_planned(),
+                     (int)ref[(size_t)i].planned);
+            if (ref[(size_t)i].planned)
+                VP_CHECK((int64_t)t->finish() == ref[(size_t)i].start + ref[(size_t)i].interval, "spec_timer_deadline", "%s: t%d deadline %lld, reference %lld", what, i,
+                         (long long)t->finish(), (long long)(ref[(size_t)i].start + ref[(size_t)i].interval));
+        }
+    }
+    c.nontrivial = fired_any;
+    for (auto *t : *tims)
+    {
+        t->unplan();
+        delete t;
+    }
+    delete tims;
+    delete mgr;
+    g_sfinish = nullptr;
+}
+void t_timer_manager_specs(Src &s, Case &c)
+{
+    switch (s.below(3))
+    {
+    case 0:
+        c.label("int64_time_int32_diff");
+        spec_history<igris::timer_spec<int64_t, int32_t>>(s, c, "timer_spec<int64_t,int32_t>", {1000, 2147481000LL, 2147483648LL, 2160000000LL, 4294966000LL, 1LL << 40});
+        break;
+    case 1:
+        c.label("int32_time");
+        spec_history<igris::timer_spec<int32_t>>(s, c, "timer_spec<int32_t>", {1000, 1000000000LL, -1000, -2000000000LL});
+        break;
+    default:
+        c.label("int64_time_int64_diff");
+        spec_history<igris::timer_spec<int64_t, int64_t>>(s, c, "timer_spec<int64_t,int64_t>", {1000, 2147483000LL, 4294967000LL, 1LL << 40, -(1LL << 33)});
+    }
+}
+
 void t_timer_manager_big(Src &s, Case &c)
 {
     g_tm_scale = (int64_t)s.pick<int64_t>({1LL << 28, 1LL << 31, (1LL << 33) + 1});
@@ -519,6 +660,10 @@ VP_TARGET("timer_manager_u32", t_timer_manager_u32,
           "timer_manager_basic<timer_spec<uint32_t>> (unsigned 32-bit clock starting at 1000, just below 2^31 or just below the 2^32 wrap): plan with starts not later than now, "
           "unplan, exec with non-decreasing time; the (timer, deadline) firings of every exec equal those of a reference scheduler and come in deadline order; planned flags and "
           "deadlines after every operation; non-trivial = an exec fired at least two callbacks");
+VP_TARGET("timer_manager_specs", t_timer_manager_specs,
+          "timer_manager_basic over other signed time bases: timer_spec<int64_t,int32_t> (64-bit clock on both sides of 2^31 and 2^32, 32-bit intervals), timer_spec<int32_t>, "
+          "timer_spec<int64_t,int64_t>: plan(tim,start,interval), set_start + set_interval + plan(tim), unplan, exec with non-decreasing time; firings against a reference "
+          "scheduler, deadline order, planned flags and deadlines after every operation; non-trivial = an exec fired at least two callbacks");
 VP_TARGET("timer_manager_big", t_timer_manager_big,
           "the timer_manager histories with every interval, start offset, script offset and time step multiplied by 2^28, 2^31 or 2^33+1 and the clock starting "
           "near 2^31, 2^32 or at 2^40 (deadlines and elapsed times that do not fit 32 bits); same reference scheduler and checks");
